@@ -252,6 +252,32 @@ def main():
                 tgt = (k, msg)
         degraded.append({'obligation': oid, 'reason': tgt[1] if tgt else 'not generated'})
 
+    # ---- a function that left the verifier's subset (DEGRADED): its contract is still checked on the real code by the
+    # bounded search where inputs can be generated - a failing input found there is a replayed counterexample
+    for k, msg in unsupported:
+        c = REG.contracts.get(k)
+        if c is None or c.get('bounded') or not any(isinstance(e, str) for e in c.get('ensures', [])):
+            continue
+        try:
+            p = subprocess.run([VENV_PY, '-m', 'pyvc.fuzz', ','.join(modules), k, '--n', '4000', '--seconds', '25',
+                                '--seed', str(seed)], env=env, cwd=VERIF, capture_output=True, text=True, timeout=180)
+            fz = json.loads(p.stdout)
+        except Exception as e:      # noqa
+            continue
+        if fz.get('failures'):
+            hit = fz['failures'][0]
+            oid = '%s.%s.%s' % (prop, k.split(':')[1], 'ensures#%d' % hit['index'] if hit['index'] >= 0 else 'no_unexpected_exception')
+            rfile = os.path.join(rdir, oid.replace('/', '_').replace('#', '-') + '.json')
+            os.makedirs(rdir, exist_ok=True)
+            with open(rfile, 'w') as f:
+                json.dump({'property': prop, 'obligation': oid, 'target': k, 'kind': 'ensures' if hit['index'] >= 0 else 'noexc',
+                           'clause': hit['clause'], 'verdict': 'bounded-counterexample', 'modules': modules, 'inputs': hit['inputs'],
+                           'repo': REPO, 'replay_status': 'reproduced',
+                           'note': 'the function is outside the verifier\'s subset (%s); failing input found by the bounded '
+                                   'search on the real function' % msg}, f, indent=1, default=str)
+            violations.append('VIOLATION property=%s replay=%s obligation=%s verdict=bounded-counterexample'
+                              % (prop, os.path.relpath(rfile, OUT), oid))
+
     # ---- bounded stand-ins (never counted as proved): contracts marked bounded={...} are searched on the real code --------
     bounded = []
     for key, c in REG.contracts.items():
@@ -306,6 +332,37 @@ def main():
                 print('CROSSCHECK-NOTE target=%s clause=%s (proved over reals / outside a known finding; see replays)' % (key, fz['failures'][0]['clause'][:120]))
                 with open(os.path.join(rdir, 'crosscheck-%s.json' % key.split(':')[1]), 'w') as f:
                     json.dump(fz['failures'][0], f, indent=1, default=str)
+    # ---- thorough tier: self-test of the check.  Every one-line change under selftest/<prop>/ breaks the property; the
+    # quick check is run against a scratch copy of the CURRENT tree with that change and has to report it.  A miss says the
+    # check is weaker than believed (a checker problem): it is recorded and printed, it is never a verdict about /repo.
+    selftest = []
+    if tier == 'thorough' and not os.environ.get('PYVC_IN_SELFTEST') and REPO == '/repo':
+        import glob
+        import shutil
+        import tempfile
+        for diff in sorted(glob.glob(os.path.join(VERIF, 'selftest', prop, '*.diff'))):
+            d = tempfile.mkdtemp(prefix='pyvc-selftest.')
+            rec = {'mutation': os.path.relpath(diff, VERIF)}
+            try:
+                shutil.copytree(os.path.join(REPO, 'mapproxy'), os.path.join(d, 'mapproxy'))
+                pr = subprocess.run(['patch', '-p1', '-s', '-i', diff], cwd=d, capture_output=True, text=True)
+                if pr.returncode != 0:
+                    rec['result'] = 'patch does not apply to the current tree (skipped)'
+                else:
+                    env2 = dict(os.environ, PYVC_REPO=d, PYVC_OUT=os.path.join(d, 'out'), PYVC_IN_SELFTEST='1', PYTHONPATH=VERIF)
+                    p2 = subprocess.run([sys.executable, '-m', 'pyvc.run', prop, '--tier', 'quick'], cwd=VERIF, env=env2,
+                                        capture_output=True, text=True, timeout=3600)
+                    first = [ln for ln in p2.stdout.splitlines() if ln.startswith('VIOLATION')]
+                    rec['exit'] = p2.returncode
+                    rec['result'] = 'detected' if p2.returncode == 1 else 'MISSED'
+                    rec['first_violation'] = first[0].split('obligation=')[1].split()[0] if first else None
+            except Exception as e:      # noqa
+                rec['result'] = 'error: %s' % e
+            finally:
+                shutil.rmtree(d, ignore_errors=True)
+            selftest.append(rec)
+            if rec['result'] != 'detected':
+                print('SELFTEST-NOTE property=%s %s: %s' % (prop, rec['mutation'], rec['result']))
     n_obl = len(obligations)
     n_dis = sum(1 for o in obligations.values() if o['verdict'] in ('unsat', 'known'))
     n_known = sum(1 for o in obligations.values() if o['verdict'] == 'known')
@@ -337,6 +394,7 @@ def main():
             'traces_validated_against_impl': n_replayed,
             'bounded': bounded,
             'crosscheck_against_cpython': crosscheck,
+            'selftest_mutations': selftest,
             'dropped_constructs': sorted(dropped),
             'degraded': degraded, 'unsupported_targets': [{'target': k, 'reason': m} for k, m in unsupported],
             'unverified_remainder': list(getattr(contracts, 'NOT_COVERED', {}).get(prop, [])),
